@@ -478,3 +478,4 @@ def unit_counter_taint(twin=False):
     return r
 
 from props.c04_ext2 import UNITS as _U2; UNITS = UNITS + _U2
+from props.c04_ext3 import UNITS as _U3; UNITS = UNITS + _U3
